@@ -94,6 +94,10 @@ fn spawn_worker(prop: &str) -> Worker {
 fn run_chunk(prop: &str, cases: &[Term], timeout_s: u64) -> Vec<Term> {
     let mut out = Vec::with_capacity(cases.len());
     let mut w = spawn_worker(prop);
+    // a case that exceeds the watchdog is tried once more, alone, with three times the budget
+    // (so that a loaded machine does not turn a slow case into an alarm); after a few confirmed
+    // time-outs in this chunk the second chance is dropped to keep the run short
+    let mut confirmed_timeouts = 0;
     for case in cases {
         let line = case.to_text();
         let ok = writeln!(w.stdin, "{}", line).and_then(|_| w.stdin.flush()).is_ok();
@@ -107,7 +111,29 @@ fn run_chunk(prop: &str, cases: &[Term], timeout_s: u64) -> Vec<Term> {
                     let _ = w.child.kill();
                     let _ = w.child.wait();
                     w = spawn_worker(prop);
-                    out.push(tag("TIMEOUT", vec![]));
+                    let mut second: Option<Term> = None;
+                    if confirmed_timeouts < 3 {
+                        let ok2 = writeln!(w.stdin, "{}", line).and_then(|_| w.stdin.flush()).is_ok();
+                        if ok2 {
+                            match w.rx.recv_timeout(Duration::from_secs(3 * timeout_s)) {
+                                Ok(Some(l)) => second = Some(Term::parse(&l).unwrap_or_else(|e| tag("BADOBS", vec![ts(&e)]))),
+                                Ok(None) => second = Some(tag("ABORT", vec![])),
+                                _ => {}
+                            }
+                        }
+                        if second.is_none() || second.as_ref().map(|t| t.nth(0).as_str() == "ABORT").unwrap_or(false) {
+                            let _ = w.child.kill();
+                            let _ = w.child.wait();
+                            w = spawn_worker(prop);
+                        }
+                    }
+                    match second {
+                        Some(t) => out.push(t),
+                        None => {
+                            confirmed_timeouts += 1;
+                            out.push(tag("TIMEOUT", vec![]));
+                        }
+                    }
                     continue;
                 }
                 Err(_) => None,
